@@ -446,6 +446,62 @@ pub fn check_default_encoder(rec: &Rec, obs: &mut Obs) -> CaseResult {
     Ok(())
 }
 
+// ---- deep nesting ------------------------------------------------------------------------------
+
+/// The grammar sets no limit on how deeply groups may be nested; machine-written patterns nest deeply. Built and
+/// rendered on a thread with a large stack (the parser and the encoder recurse).
+#[derive(Serialize, Deserialize, Debug, Clone)]
+pub struct DeepCase {
+    pub depth: u16,
+    /// bit i of the pattern decides the kind of every level with (level % 8 == i): plain group or highlight group
+    pub kinds: u8,
+    /// every `spec_every`-th level carries a width spec that cannot bite (min width 1)
+    pub spec_every: u8,
+    pub msg: String,
+}
+
+const DEEP_EDGES: [u16; 18] = [5, 31, 32, 33, 63, 64, 65, 127, 128, 129, 255, 256, 257, 300, 511, 513, 1024, 1500];
+
+pub fn deep_strategy() -> impl Strategy<Value = DeepCase> {
+    (prop_oneof![1u16..1500, (0usize..DEEP_EDGES.len()).prop_map(|i| DEEP_EDGES[i])], any::<u8>(), 0u8..6, "[a-zé]{1,6}")
+        .prop_map(|(depth, kinds, spec_every, msg)| DeepCase { depth, kinds, spec_every, msg })
+}
+
+pub fn check_deep(case: &DeepCase, obs: &mut Obs) -> CaseResult {
+    let c = case.clone();
+    let h = std::thread::Builder::new().stack_size(1 << 30).spawn(move || {
+        let mut open = String::new();
+        let mut close = String::new();
+        let mut want_open = String::new();
+        let mut want_close = String::new();
+        for level in 0..c.depth {
+            let highlight = c.kinds >> (level % 8) & 1 == 1;
+            open.push_str(if highlight { "<{h(" } else { "<{(" });
+            want_open.push('<');
+            let spec = c.spec_every != 0 && level % c.spec_every as u16 == 0;
+            close = format!("{}{}", if spec { "):1}>" } else { ")}>" }, close);
+            want_close.push('>');
+        }
+        let pattern = format!("{}{{m}}{}", open, close);
+        let enc = PatternEncoder::new(&pattern);
+        // level Debug: highlight groups of that level ask for no colour, so the text is all there is
+        let rec = Rec { level: 4, target: "t".into(), msg: vec![c.msg.clone()], module: None, file: None, line: None, mdc: vec![] };
+        let (w, _) = encode_with(&enc, &rec, vec![]);
+        (String::from_utf8_lossy(&w.bytes()).to_string(), format!("{}{}{}", want_open, c.msg, want_close))
+    });
+    let (got, want) = match h.map(|h| h.join()) {
+        Ok(Ok(x)) => x,
+        Ok(Err(_)) => return fail("C09:deep-nesting-panics", format!("pattern nested {} deep panicked", case.depth)),
+        Err(e) => return fail("C09:harness", format!("thread with a large stack: {}", e)),
+    };
+    obs.sub_evals += 1;
+    obs.nontrivial = case.depth >= 5;
+    obs.class(match case.depth { 0..=32 => "deep:<=32", 33..=128 => "deep:33-128", 129..=256 => "deep:129-256", 257..=512 => "deep:257-512", _ => "deep:>512" });
+    let short = |s: &str| if s.len() > 120 { format!("{}…{}", &s[..60], &s[s.len() - 50..]) } else { s.to_string() };
+    ensure!(got == want, "C09:deep-nesting", "groups nested {} deep around {{m}} rendered {:?}, expected {:?}", case.depth, short(&got), short(&want));
+    Ok(())
+}
+
 /// The process forks after it has logged (pre-fork servers, daemonising): records of the child carry the child's id.
 #[derive(Serialize, Deserialize, Debug, Clone)]
 pub struct ForkCase {
@@ -521,6 +577,13 @@ pub fn run(run: &Run) {
             run.eval_one("after-fork", &ForkCase { pattern: p.to_string() }, &check_after_fork);
         }
     }
+    run.run_replays::<DeepCase>("deep-nesting", &check_deep);
+    if run.worker.0 == 0 {
+        for (i, d) in DEEP_EDGES.iter().enumerate() {
+            run.eval_one("deep-nesting", &DeepCase { depth: *d, kinds: [0u8, 0xFF, 0xA5][i % 3], spec_every: (i % 4) as u8, msg: "msg".into() }, &check_deep);
+        }
+    }
+    run.search("deep-nesting", run.tier.pick(40, 2_000), deep_strategy(), &check_deep);
     // last, because it moves the process's zone about (and back): one worker
     run.run_replays::<TzCase>("tz-change", &check_tz_change);
     if run.worker.0 == 0 {
@@ -535,6 +598,7 @@ pub fn replay(part: &str, case: serde_json::Value) -> Option<CaseResult> {
         "date-subsec" => Some(check_sub(&serde_json::from_value(case).ok()?, &mut Obs::default())),
         "default-encoder" => Some(check_default_encoder(&serde_json::from_value(case).ok()?, &mut Obs::default())),
         "after-fork" => Some(check_after_fork(&serde_json::from_value(case).ok()?, &mut Obs::default())),
+        "deep-nesting" => Some(check_deep(&serde_json::from_value(case).ok()?, &mut Obs::default())),
         "tz-change" => Some(check_tz_change(&serde_json::from_value(case).ok()?, &mut Obs::default())),
         _ => None,
     }
@@ -543,7 +607,7 @@ pub fn replay(part: &str, case: serde_json::Value) -> Option<CaseResult> {
 pub fn meta() -> EvidenceMeta {
     EvidenceMeta {
         level: "exploration",
-        rule: "cases = patterns generated as an AST over the documented grammar (all formatters and both aliases, literals with doubled/backslash escapes, MDC and date arguments, nesting <=4, optional width specs) printed to a string, x 1-2 generated records (Unicode text, absent optional fields, MDC maps, message delivered in 1-6 pieces), encoded into a capture sink with scripted short writes, on the main or a named thread, under both build profiles; oracle = render(AST, record) computed from the AST (never from re-parsing), equality of whole output, the exact sequence of text pieces and style requests (set before / reset after every highlight group of a coloured level, unaffected by width specs, padding outside), alias-flipped pattern renders identically; sub-second dates: cut out between literal prefix/suffix, parsed back, must lie inside the encode bracket with the requested zone's offset; default-encoder: PatternEncoder::default(), PatternEncoder::new of the documented default pattern and the pattern deserializer without a pattern key must all render 'ISO 8601 local date, level, target - message, line break'; after-fork: the process encodes {P}/{pid}, forks, and the child's rendering must carry the child's id; zone changes: TZ is moved through 2-3 fixed-offset zones while the process runs (1.15 s apart, chrono's own refresh interval) and every local date - also in the default format `{d}` - must carry the offset of the zone in force when it is encoded and denote the instant of encoding (each case ends in a zone west of Greenwich whose offset is not a whole hour); non-trivial = AST depth>=2 or escape adjacent to a formatter or absent optional field under a spec or non-ASCII record text or MDC/date argument with escapes; distinct = FNV hash of the case".into(),
+        rule: "cases = patterns generated as an AST over the documented grammar (all formatters and both aliases, literals with doubled/backslash escapes, MDC and date arguments, nesting <=4, optional width specs) printed to a string, x 1-2 generated records (Unicode text, absent optional fields, MDC maps, message delivered in 1-6 pieces), encoded into a capture sink with scripted short writes, on the main or a named thread, under both build profiles; oracle = render(AST, record) computed from the AST (never from re-parsing), equality of whole output, the exact sequence of text pieces and style requests (set before / reset after every highlight group of a coloured level, unaffected by width specs, padding outside), alias-flipped pattern renders identically; sub-second dates: cut out between literal prefix/suffix, parsed back, must lie inside the encode bracket with the requested zone's offset; default-encoder: PatternEncoder::default(), PatternEncoder::new of the documented default pattern and the pattern deserializer without a pattern key must all render 'ISO 8601 local date, level, target - message, line break'; after-fork: the process encodes {P}/{pid}, forks, and the child's rendering must carry the child's id; deep nesting: 1-1500 plain and highlight groups (some with a width spec that cannot bite) nested around {m}, built and rendered on a thread with a 1 GiB stack, must render every level's literal text; zone changes: TZ is moved through 2-3 fixed-offset zones while the process runs (1.15 s apart, chrono's own refresh interval) and every local date - also in the default format `{d}` - must carry the offset of the zone in force when it is encoded and denote the instant of encoding (each case ends in a zone west of Greenwich whose offset is not a whole hour); non-trivial = AST depth>=2 or escape adjacent to a formatter or absent optional field under a spec or non-ASCII record text or MDC/date argument with escapes; distinct = FNV hash of the case".into(),
         assumptions: vec![
             "date reference formatting uses chrono itself: checked is that format and zone reach chrono unaltered and the result lands in place".into(),
             "unnamed threads and highlight colours are not asserted (documentation and code disagree; statement requires only unchanged text)".into(),
